@@ -138,6 +138,9 @@ type semaTmpl struct {
 const qre = `("(?:[^"\\]|\\.)*")`
 
 var semaTemplates = []semaTmpl{
+	{"template-type", regexp.MustCompile(`(?s)^object, array, and null values should not be evaluated in template with \$\{\{ \}\} but evaluating the value of type (.*)$`), "s"},
+	{"must-be-bool", regexp.MustCompile(`(?s)^type of expression must be bool but found type (.*)$`), "s"},
+	{"must-be-number", regexp.MustCompile(`(?s)^type of expression at ` + qre + ` must be number but found type (.*)$`), "qs"},
 	{"context-not-allowed", regexp.MustCompile(`(?s)^context ` + qre + ` is not allowed here\. .*$`), "q"},
 	{"special-func-not-allowed", regexp.MustCompile(`(?s)^calling function ` + qre + ` is not allowed here\. .*$`), "q"},
 	{"undefined-variable", regexp.MustCompile(`(?s)^undefined variable ` + qre + `\. available variables are .*$`), "l"},
